@@ -14,9 +14,14 @@ class ExtractionError(Exception):
     pass
 
 
+MODULE_LITERALS = {}      # module-level names bound to literals (constants hoisted out of the add_argument calls)
+
+
 def _const(node, what):
     if isinstance(node, ast.Constant):
         return node.value
+    if isinstance(node, ast.Name) and node.id in MODULE_LITERALS:
+        return MODULE_LITERALS[node.id]
     if isinstance(node, ast.Name):
         return "name:" + node.id
     raise ExtractionError("%s is not a literal (line %d)" % (what, node.lineno))
@@ -74,6 +79,12 @@ def _expand(node, wrappers):
 def options(cmdline_py):
     tree = ast.parse(open(cmdline_py).read())
     wrappers = _wrappers(tree)
+    MODULE_LITERALS.clear()
+    for n in tree.body:
+        if isinstance(n, ast.Assign) and len(n.targets) == 1 and isinstance(n.targets[0], ast.Name) and isinstance(n.value, ast.Constant):
+            MODULE_LITERALS[n.targets[0].id] = n.value.value
+        elif isinstance(n, ast.AnnAssign) and isinstance(n.target, ast.Name) and isinstance(n.value, ast.Constant):
+            MODULE_LITERALS[n.target.id] = n.value.value
     out = []
     for raw in ast.walk(tree):
         if not isinstance(raw, ast.Call):
